@@ -85,7 +85,10 @@ def check_live(repo, res, idview):
     res.floor("table bindings in IDView.__init__", n, 8)
     # _ids default
     ids_assign = [st for st in own_statements(init.node) if isinstance(st, ast.Assign) and any(isinstance(t, ast.Attribute) and t.attr == "_ids" for t in st.targets)]
-    live_default = any(isinstance(st.value, ast.Attribute) and st.value.attr == "_id_dict" for st in ids_assign)
+    def _is_id_dict(e):
+        return isinstance(e, ast.Attribute) and e.attr == "_id_dict"
+
+    live_default = any(_is_id_dict(st.value) or (isinstance(st.value, ast.IfExp) and (_is_id_dict(st.value.body) or _is_id_dict(st.value.orelse))) for st in ids_assign)
     res.inst("V-LIVE", "IDView.__init__: _ids defaults to the ID table itself", live_default)
     if not live_default:
         res.add(mk_finding(PROP, "V-LIVE", init, ids_assign[0] if ids_assign else init.node, "IDView.__init__ does not let _ids default to the live ID table (self._id_dict)", role="_ids"))
@@ -93,10 +96,18 @@ def check_live(repo, res, idview):
     n = 0
     newv = None
     viewp = fv.params[1]
+    aliases = {}
+    for st in own_statements(fv.node):
+        if isinstance(st, ast.Assign) and len(st.targets) == 1 and isinstance(st.targets[0], ast.Name) and isinstance(st.value, ast.Attribute) and isinstance(st.value.value, ast.Name) and st.value.value.id == viewp:
+            aliases[st.targets[0].id] = st.value
+
+    def deref(e):
+        return aliases.get(e.id, e) if isinstance(e, ast.Name) else e
+
     for st in own_statements(fv.node):
         if isinstance(st, ast.Assign) and len(st.targets) == 1 and isinstance(st.targets[0], ast.Attribute) and st.targets[0].attr in TABLE_OF_VIEW_ATTR | {"_net"}:
             n += 1
-            v = st.value
+            v = deref(st.value)
             ok = isinstance(v, ast.Attribute) and v.attr == st.targets[0].attr and isinstance(v.value, ast.Name) and v.value.id == viewp
             res.inst("V-LIVE", f"IDView.from_view:{st.lineno} {unparse(st.targets[0])} <- {unparse(v, 40)}", ok)
             if not ok:
@@ -109,12 +120,13 @@ def check_live(repo, res, idview):
         v = st.value
         if isinstance(v, (ast.ListComp, ast.GeneratorExp)) or (isinstance(v, ast.Call) and v.args and isinstance(v.args[0], (ast.ListComp, ast.GeneratorExp))):
             comp = v if isinstance(v, (ast.ListComp, ast.GeneratorExp)) else v.args[0]
-            it = comp.generators[0].iter
+            it = deref(comp.generators[0].iter)
             ok = isinstance(it, ast.Attribute) and it.attr in ("_id_dict", "_ids") and isinstance(it.value, ast.Name) and it.value.id == viewp
             res.inst("V-ORDER", f"from_view:{st.lineno} restricted IDs are listed in table order", ok)
             if not ok:
                 res.add(mk_finding(PROP, "V-ORDER", fv, st, f"from_view orders the restricted IDs by `{unparse(it, 50)}` instead of the table's insertion order", role="_ids"))
         else:
+            v = deref(v)
             ok = isinstance(v, ast.Attribute) and v.attr in ("_id_dict",) and isinstance(v.value, ast.Name) and v.value.id == viewp
             res.inst("V-LIVE", f"from_view:{st.lineno} unrestricted view refers to the ID table", ok)
             if not ok:
@@ -390,7 +402,14 @@ def check_filter(repo, res, idview):
                     collect(st.orelse)
 
         collect(m.node.body)
-        table = operator_table(m)
+        table = operator_table(m) or module_operator_table(repo, m)
+        if table is not None and not branches:
+            ok_call = table_call_ok(m, selfn, valp)
+            res.inst("V-FILTER", f"IDView.{mname}: the selected predicate is applied as predicate(values[idx], {valp}) over the view", ok_call)
+            if not ok_call:
+                res.add(mk_finding(PROP, "V-FILTER", m, m.node, f"IDView.{mname}: the comparison selected by `mode` is not applied as predicate(values[idx], {valp}) while iterating the view itself", role=f"{mname}:apply"))
+        if table is None and not branches:
+            raise AnalysisError(f"IDView.{mname}: neither an if-chain over `mode` nor an operator table was found (extractor does not recognise the code)")
         for mode, opcls in list(MODE_OPS.items()) + [("between", None), ("<callable>", None)]:
             total += 1
             if mode in branches:
@@ -398,9 +417,13 @@ def check_filter(repo, res, idview):
                 if comp is None:
                     raise AnalysisError(f"IDView.{mname}: mode {mode!r} does not assign a comprehension to the bunch (extractor does not recognise the code)")
                 ok, why = comp_matches(comp, mode, opcls, selfn, valp)
-            elif table is not None and mode in table:
+            elif table is not None and mode in table and mode != "between":
                 ok = table[mode] == OPERATOR_NAMES.get(mode)
                 why = f"operator table maps {mode!r} to operator.{table[mode]}"
+                comp = None
+            elif table is not None and mode == "between" and "between" in table:
+                ok = table["between"] == "between-lambda"
+                why = "the 'between' entry of the operator table is not `lo <= value <= hi`"
                 comp = None
             elif table is not None and mode in ("between", "<callable>"):
                 continue
@@ -429,6 +452,64 @@ def operator_table(m):
             if out:
                 return out
     return None
+
+
+def module_operator_table(repo, m):
+    """A module-level dict {"eq": eq, "neq": ne, ...} (values: functions of the operator module or lambdas)."""
+    mi = m.module
+    for name, val in mi.assigns.items():
+        if not isinstance(val, ast.Dict):
+            continue
+        keys = [k.value for k in val.keys if isinstance(k, ast.Constant)]
+        if not {"eq", "neq", "lt", "gt", "leq", "geq"} <= set(keys):
+            continue
+        out = {}
+        for k, v in zip(val.keys, val.values):
+            if not isinstance(k, ast.Constant):
+                continue
+            if isinstance(v, ast.Name):
+                tgt = repo.resolve_in_module(mi, v.id)
+                path = getattr(tgt, "path", "")
+                out[k.value] = path.split(".")[-1] if path.startswith("operator.") or path.startswith("_operator.") else v.id
+            elif isinstance(v, ast.Attribute) and isinstance(v.value, ast.Name) and v.value.id == "operator":
+                out[k.value] = v.attr
+            elif isinstance(v, ast.Lambda) and k.value == "between":
+                a = [x.arg for x in v.args.args]
+                b = v.body
+                good = False
+                if len(a) == 2 and isinstance(b, ast.Compare) and len(b.ops) == 2 and all(isinstance(o, ast.LtE) for o in b.ops):
+                    lo, mid, hi = b.left, b.comparators[0], b.comparators[1]
+                    def idx(e, kk):
+                        return isinstance(e, ast.Subscript) and isinstance(e.value, ast.Name) and e.value.id == a[1] and isinstance(e.slice, ast.Constant) and e.slice.value == kk
+                    good = idx(lo, 0) and isinstance(mid, ast.Name) and mid.id == a[0] and idx(hi, 1)
+                out[k.value] = "between-lambda" if good else "other-lambda"
+            else:
+                out[k.value] = "?"
+        return out
+    return None
+
+
+def table_call_ok(m, selfn, valp):
+    """bunch = [idx for idx in self if <pred>(values[idx], val)] with <pred> a local selected through `mode`."""
+    for st in own_statements(m.node):
+        if isinstance(st, ast.Assign) and isinstance(st.value, ast.ListComp):
+            comp = st.value
+            g = comp.generators[0]
+            if not (isinstance(g.iter, ast.Name) and g.iter.id == selfn and isinstance(g.target, ast.Name)):
+                return False
+            var = g.target.id
+            conds = []
+            for c in g.ifs:
+                conds.extend(c.values if isinstance(c, ast.BoolOp) and isinstance(c.op, ast.And) else [c])
+            for c in conds:
+                if isinstance(c, ast.Call) and isinstance(c.func, ast.Name) and len(c.args) == 2:
+                    a0, a1 = c.args
+                    if isinstance(a0, ast.Subscript) and isinstance(a0.slice, ast.Name) and a0.slice.id == var and isinstance(a1, ast.Name) and a1.id == valp:
+                        pred = c.func.id
+                        defs = [s for s in own_statements(m.node) if isinstance(s, ast.Assign) and any(isinstance(t, ast.Name) and t.id == pred for t in s.targets)]
+                        if defs and all(any(isinstance(x, ast.Name) and x.id == "mode" for x in ast.walk(d.value)) for d in defs):
+                            return True
+    return False
 
 
 def find_bunch_comp(stmts):
